@@ -300,7 +300,9 @@ func (e *Engine) global(st *State, x *ssa.Global) Value {
 			panic(engErr("uninitialised global of dependency: " + x.String()))
 		}
 	} else if msg, bad := st.InitFailed[pk]; bad && pk != nil {
-		if types.Identical(et, types.Universe.Lookup("error").Type()) {
+		if strings.Contains(e.fset.Position(x.Pos()).Filename, "zz_verif_") {
+			init = zero(et) // harness globals carry no initialisers
+		} else if types.Identical(et, types.Universe.Lookup("error").Type()) {
 			init = e.sentinel(x.String())
 		} else {
 			panic(engErr("global " + x.String() + " of a package whose init could not be executed (" + msg + ")"))
